@@ -123,11 +123,20 @@ def gen_cases(run, n):
     return cases
 
 
-def main(run):
-    info = proof_stage(run, "C01", extra_targets=["corr/C01_corr.vo"])
-    harness_build()
-    n = 200 if run.tier == "quick" else 3000
-    cases = gen_cases(run, n)
+def case_of(c):
+    """what ./check C01 --replay needs to rebuild the case: the structured journal the model is evaluated on"""
+    return {"txns": c["txns"], "tags": c["tags"], "src": c.get("src")}
+
+
+def main(run, only=None):
+    """only: the cases of a replay (no generation, no proof stage, no verdict)"""
+    if only is None:
+        info = proof_stage(run, "C01", extra_targets=["corr/C01_corr.vo"])
+        harness_build()
+        n = 200 if run.tier == "quick" else 3000
+        cases = gen_cases(run, n)
+    else:
+        cases = only
     toml = J.make_toml()
     reqs = [{"conf": {"toml": toml}, "inputs": [{"text": J.print_journal(c["txns"])}], "ops": [{"op": "txns"}]} for c in cases]
     res = harness_run(reqs)
@@ -174,7 +183,7 @@ def main(run):
             run.cov["samples"].append({"journal": text, "tags": c["tags"], "implementation": c["impl"], "bits": bits})
         if bits & 8:
             run.violation("accepted transaction whose postings do not sum to zero (exact sum, independent of the number type)",
-                          {"journal": text, "injected": c["tags"], "implementation_output": c["impl"]})
+                          {"journal": text, "injected": c["tags"], "implementation_output": c["impl"], "case": case_of(c)})
             continue
         if not (bits & 4):
             continue
@@ -182,12 +191,14 @@ def main(run):
         if not (bits & 2):
             run.violation("accepted journal is not balanced in one commodity (or contains a shape that must be rejected)",
                           {"journal": text, "injected": c["tags"], "implementation_output": c["impl"],
-                           "replay_hint": "parser::string_to_txns on the journal text; ./check C01 --replay <this file>"})
+                           "replay_hint": "parser::string_to_txns on the journal text; ./check C01 --replay <this file>", "case": case_of(c)})
         elif not (bits & 1):
             run.cov["disagreements_checked"] += 1
             run.violation("correspondence broken: model Accept.accept_journal differs from implementation (spec oracle clean on this input)",
                           {"correspondence": "C01_corr.c01_case", "journal": text, "injected": c["tags"],
-                           "implementation_output": c["impl"]}, found_input=False)
+                           "implementation_output": c["impl"], "case": case_of(c)}, found_input=False)
+    if only is not None:
+        return None
     run.cov["distinct_nontrivial"] = len(distinct)
     run.cov["rule"] = ("seeded journals of 1-4 transactions (2-6 postings, 0-3 commodities, '@' '=' '{..}' positions, implicit last posting), "
                        "45% with one injected shape of the property (zero amount, off by one ulp, foreign commodity, same-commodity price, negative price, "
@@ -197,6 +208,18 @@ def main(run):
 
 
 def replay(run, path):
-    j = json.load(open(path))
-    print(json.dumps(j, indent=1, ensure_ascii=False)[:6000])
-    return 0
+    """the stored structured journal again: harness (parser::string_to_txns) + c01_case; see common.replay_verdict"""
+    j, rp, rc = replay_begin(run, path)
+    if rc is not None:
+        return rc
+    c = rp.get("case")
+    if not (isinstance(c, dict) and c.get("txns")):
+        return replay_print(j)
+    print(j.get("what"))
+    c = {"txns": c["txns"], "tags": list(c.get("tags") or []), "src": "replay"}
+    print("journal:\n%s" % J.print_journal(c["txns"]))
+    corr_build("C01")
+    harness_build()
+    main(run, only=[c])
+    print("implementation now: %s" % json.dumps(c.get("impl"), ensure_ascii=False)[:3000])
+    return replay_verdict(run, path, j, "stage=%s: accepted/rejected as the specification demands and the model agrees (or the case is outside the exact domain)" % c.get("stage"))
